@@ -157,8 +157,12 @@ func GenC07(seed uint64, idx int) *Scenario {
 // SweepJob is one ordered pair of first-use operations; the sweep places one
 // preemption at every yield index of the first in turn.
 type SweepJob struct {
-	Cfg  world.InstCfg
-	A, B Op
+	Prop   string
+	Cfg    world.InstCfg
+	A, B   Op
+	Sites  []string
+	Vocabs [][]string
+	Pre    []Op // run by task A before the swept operation (warm-up), without preemption
 }
 
 // C07SweepJobs enumerates the (configuration, ordered pair) jobs.
@@ -202,9 +206,17 @@ func C07SweepJobs(seed uint64, quick bool) []SweepJob {
 
 // SweepScenario builds the scenario for one placement of a sweep job.
 func SweepScenario(seed uint64, job SweepJob, jobIdx int, i int) *Scenario {
+	prop := job.Prop
+	if prop == "" {
+		prop = "C07"
+	}
+	sites := job.Sites
+	if sites == nil {
+		sites = append(append([]string(nil), buildSites...), "struct.append", "struct.read")
+	}
 	return &Scenario{
-		Prop: "C07", Seed: seed, Index: -1 - jobIdx, Insts: []world.InstCfg{job.Cfg},
-		Tasks: [][]Op{{job.A}, {job.B}}, Sites: append(append([]string(nil), buildSites...), "struct.append", "struct.read"),
+		Prop: prop, Seed: seed, Index: -1 - jobIdx, Insts: []world.InstCfg{job.Cfg},
+		Tasks: [][]Op{{job.A}, {job.B}}, Sites: sites, Vocabs: job.Vocabs,
 		Policy:   engine.Policy{Kind: "sweep", SweepA: 0, SweepB: 1, SweepI: i},
 		PoolSeam: false, Note: "sweep",
 	}
